@@ -103,6 +103,7 @@ pub fn process(ctx: &mut Ctx, text: &str) -> Result<(String, Vec<Value>), (Strin
             continue;
         };
         let mut blk = parse_head(d, i + 1);
+        let raw_rest: String = d.split_once(char::is_whitespace).map(|(_, r)| r.trim().to_string()).unwrap_or_default();
         i += 1;
         let is_block = matches!(blk.kind.as_str(), "fn" | "skeleton" | "lift");
         if is_block {
@@ -142,6 +143,10 @@ pub fn process(ctx: &mut Ctx, text: &str) -> Result<(String, Vec<Value>), (Strin
                     .map(|t| (t, json!({"item": format!("include {p}")})))
                     .map_err(|e| format!("cannot include {p}: {e}"))
             }
+            "ltype" => crate::lift::ltype(ctx, &blk, &raw_rest),
+            "lextern" => crate::lift::lextern(ctx, &raw_rest, true),
+            "ldeclare" => crate::lift::lextern(ctx, &raw_rest, false),
+            "lstruct" => crate::lift::lstruct(ctx, &blk),
             "item" => crate::extract::extract_item(ctx, &blk),
             "trait" => crate::extract::extract_trait(ctx, &blk),
             "fn" => crate::extract::extract_fn(ctx, &blk),
